@@ -206,6 +206,25 @@ def run(tier, t0):
             acc.violation(f'level-set:level={r}', f'ids enumerated by cell_to_children(0,{r}) differ from the encoded cells of that level', case)
         else:
             acc.n['validated'] += len(enum)
+        # the other public enumerators of a level: uncompact of the world cell / of the twelve faces, and level-by-level children
+        if r <= 6 and not acc.violations:
+            others = {}
+            try:
+                others['uncompact([world], r)'] = a5.uncompact([ser.WORLD_CELL], r)
+                others['uncompact(get_res0_cells(), r)'] = a5.uncompact(list(a5.get_res0_cells()), r)
+                step = [ser.WORLD_CELL]
+                for rr in range(0, r + 1):
+                    step = [ch for c in step for ch in a5.cell_to_children(c, rr)]
+                others['children level by level'] = step
+            except Exception as e:
+                acc.violation(f'level-enum2-raises:level={r}', f'enumerating level {r} ({len(others)} enumerators done) raised {e!r}', case)
+                continue
+            for name, ids in others.items():
+                acc.n['transitions'] += len(ids)
+                if len(ids) != nc or set(ids) != level_ids[r]:
+                    acc.violation(f'level-enum2:{name}:level={r}', f'{name} enumerates {len(ids)} ids ({len(set(ids))} distinct), expected the {nc} ids of level {r}', case)
+                else:
+                    acc.n['validated'] += len(ids)
     # ids of different levels must be distinct too
     allids = set()
     total = 0
